@@ -102,3 +102,177 @@ def api_variants_agree(cl, mod, cls, func):
 
 
 R.fclause("C14", "api-agreement", "custom", V + "validate_config", fn=api_variants_agree)
+
+
+# ---------------------------------------------------------------- totality of the leaf coercions
+def untrusted_conversion_cannot_escape(cl, mod, cls, func):
+    """`int(v)` / `float(v)` of the untrusted leaf value raises TypeError, ValueError *and* OverflowError (int(inf),
+    float(10**400)): the conversion of the first parameter sits in a try whose handler catches Exception (or
+    everything) and does not re-raise"""
+    from pyvc.effects import handler_catches_all, handler_is_quiet
+    v = func.args.args[0].arg
+    conv = func.name.replace("_coerce_", "")
+    sites = []
+    for tr in [n for n in ast.walk(func) if isinstance(n, ast.Try)]:
+        for st in tr.body:
+            for n in ast.walk(st):
+                if isinstance(n, ast.Call) and getattr(n.func, "id", None) == conv and n.args and isinstance(n.args[0], ast.Name) and n.args[0].id == v:
+                    sites.append((n, tr))
+    all_conv = [n for n in ast.walk(func) if isinstance(n, ast.Call) and getattr(n.func, "id", None) == conv and n.args
+                and isinstance(n.args[0], ast.Name) and n.args[0].id == v]
+    if not all_conv:
+        return [result(cl["name"], "error", "anchor lost: no %s(%s) in %s" % (conv, v, func.name))]
+    guarded = {id(n) for n, tr in sites if any(handler_catches_all(h) and handler_is_quiet(h) for h in tr.handlers)}
+    bad = [n for n in all_conv if id(n) not in guarded]
+    if bad:
+        return [result(cl["name"], "failed", "%s(%s) at line %d is not inside a catch-all handler: OverflowError (inf, huge ints) "
+                       "or another exception type escapes the validator" % (conv, v, bad[0].lineno))]
+    return [result(cl["name"], "proved", where="%d conversion site(s)" % len(all_conv))]
+
+
+for _f in ("_coerce_int", "_coerce_float"):
+    R.fclause("C14", "totality/leaf-conversion-cannot-escape:" + _f, "custom", V + _f, fn=untrusted_conversion_cannot_escape)
+
+
+# ---------------------------------------------------------------- purity: copy-on-normalise discipline
+# "never mutates its input": the normaliser works on `merged = _deep_merge(cfg_in, defaults)` (fresh top level) and takes a
+# fresh shallow copy of every sub-section (_ensure_subdict) before writing into it.  Three clause families:
+#   fresh-return/<helper>       every value returned by _ensure_dict / _deep_merge / _ensure_subdict is a freshly built dict
+#                               (literal, dict(...), a call of a helper with this same clause) -- never an object reachable
+#                               from the arguments
+#   helpers-do-not-write-args   _ensure_dict and _deep_merge never store into their parameters
+#   writes-only-into-fresh      in the normaliser, every container that is written (x[k] = .., del x[k], x.update/
+#                               setdefault/pop/clear/append/extend) is a local bound *only* to fresh objects; the parameter
+#                               is never written; every _ensure_subdict(X, ..) call has such a local as X
+# Name-level analysis: values stored *inside* a fresh container may still alias the input; they are only written after
+# having been re-copied through _ensure_subdict, which is what the third clause enforces.
+_FRESH_HELPERS = {"_ensure_dict", "_deep_merge", "_ensure_subdict"}
+_FRESH_CTORS = {"dict", "list", "set", "sorted", "deepcopy", "tuple", "frozenset"}
+_SCALAR_FUNCS = {"int", "float", "str", "bool", "len", "min", "max", "abs", "round", "isinstance", "_coerce_int", "_coerce_float",
+                 "_coerce_bool", "repr", "sum", "any", "all"}
+_MUTATORS = {"update", "setdefault", "pop", "clear", "append", "extend", "popitem", "insert", "remove", "sort", "add", "discard"}
+
+
+def _is_fresh(e, fresh_names):
+    if isinstance(e, (ast.Dict, ast.List, ast.Set, ast.DictComp, ast.ListComp, ast.SetComp, ast.Constant, ast.JoinedStr,
+                      ast.Compare, ast.BoolOp, ast.BinOp, ast.UnaryOp, ast.Tuple)):
+        if isinstance(e, ast.BoolOp):     # `x or {}` yields x itself
+            return all(_is_fresh(v, fresh_names) for v in e.values)
+        return True
+    if isinstance(e, ast.Call):
+        f = e.func
+        nm = f.id if isinstance(f, ast.Name) else f.attr if isinstance(f, ast.Attribute) else None
+        if isinstance(f, ast.Name) and (nm in _FRESH_HELPERS or nm in _FRESH_CTORS or nm in _SCALAR_FUNCS):
+            return True
+        if isinstance(f, ast.Attribute) and nm == "setdefault" and isinstance(f.value, ast.Name) and f.value.id in fresh_names \
+                and len(e.args) == 2 and _is_fresh(e.args[1], fresh_names):
+            return True       # fresh_container.setdefault(k, <fresh>)
+        if isinstance(f, ast.Attribute) and nm in ("copy", "strip", "lower", "upper", "keys", "items", "values", "format", "join", "split"):
+            return True
+        return False
+    if isinstance(e, ast.IfExp):
+        return _is_fresh(e.body, fresh_names) and _is_fresh(e.orelse, fresh_names)
+    if isinstance(e, ast.Name):
+        return e.id in fresh_names
+    return False
+
+
+def _fresh_locals(func):
+    """names all of whose bindings in `func` are fresh expressions (fixpoint); parameters are never fresh"""
+    params = {a.arg for a in func.args.args + func.args.kwonlyargs + func.args.posonlyargs}
+    binds = {}
+    for n in ast.walk(func):
+        if isinstance(n, ast.Assign):
+            for tg in n.targets:
+                if isinstance(tg, ast.Name):
+                    binds.setdefault(tg.id, []).append(n.value)
+                elif isinstance(tg, (ast.Tuple, ast.List)):
+                    for el in tg.elts:
+                        if isinstance(el, ast.Name):
+                            binds.setdefault(el.id, []).append(None)
+        elif isinstance(n, ast.AnnAssign) and isinstance(n.target, ast.Name) and n.value is not None:
+            binds.setdefault(n.target.id, []).append(n.value)
+        elif isinstance(n, (ast.For, ast.comprehension)):
+            for el in ast.walk(n.target):
+                if isinstance(el, ast.Name):
+                    binds.setdefault(el.id, []).append(None)
+        elif isinstance(n, ast.With):
+            for it in n.items:
+                if it.optional_vars is not None:
+                    for el in ast.walk(it.optional_vars):
+                        if isinstance(el, ast.Name):
+                            binds.setdefault(el.id, []).append(None)
+    fresh = set()
+    changed = True
+    while changed:
+        changed = False
+        for nm, rhss in binds.items():
+            if nm in fresh or nm in params:
+                continue
+            if all(r is not None and _is_fresh(r, fresh) for r in rhss):
+                fresh.add(nm)
+                changed = True
+    return fresh, params
+
+
+def _written_names(func):
+    out = []
+    for n in ast.walk(func):
+        tgs = []
+        if isinstance(n, ast.Assign):
+            tgs = n.targets
+        elif isinstance(n, (ast.AugAssign, ast.AnnAssign)):
+            tgs = [n.target]
+        elif isinstance(n, ast.Delete):
+            tgs = n.targets
+        for tg in tgs:
+            if isinstance(tg, (ast.Subscript, ast.Attribute)) and isinstance(tg.value, ast.Name):
+                out.append((tg.value.id, n.lineno, ast.unparse(tg)))
+        if isinstance(n, ast.Call) and isinstance(n.func, ast.Attribute) and n.func.attr in _MUTATORS and isinstance(n.func.value, ast.Name):
+            out.append((n.func.value.id, n.lineno, ast.unparse(n.func)))
+    return out
+
+
+def returns_fresh(cl, mod, cls, func):
+    fresh, params = _fresh_locals(func)
+    rets = [n for n in ast.walk(func) if isinstance(n, ast.Return) and n.value is not None]
+    if not rets:
+        return [result(cl["name"], "error", "anchor lost: %s has no return value" % func.name)]
+    bad = [r for r in rets if not _is_fresh(r.value, fresh)]
+    if bad:
+        return [result(cl["name"], "failed", "%s can return an object that is not freshly built (line %d: return %s): the caller's "
+                       "input is handed out for in-place normalisation" % (func.name, bad[0].lineno, ast.unparse(bad[0].value)[:60]))]
+    return [result(cl["name"], "proved", where="%d return(s), all fresh" % len(rets))]
+
+
+def does_not_write_params(cl, mod, cls, func):
+    fresh, params = _fresh_locals(func)
+    bad = [(nm, ln, src) for nm, ln, src in _written_names(func) if nm in params or nm not in fresh]
+    if bad:
+        return [result(cl["name"], "failed", "%s writes into %s (line %d: %s), which is not a fresh local" % (func.name, bad[0][0], bad[0][1], bad[0][2]))]
+    return [result(cl["name"], "proved")]
+
+
+def writes_only_into_fresh(cl, mod, cls, func):
+    fresh, params = _fresh_locals(func)
+    out = []
+    bad = sorted({"%s (line %d: %s)" % (nm, ln, src[:40]) for nm, ln, src in _written_names(func) if nm in params or nm not in fresh})
+    out.append(result(cl["name"] + "/every-written-container-is-a-fresh-local", "failed" if bad else "proved",
+                      "written but not bound only to fresh copies: " + "; ".join(bad[:6]) if bad else "",
+                      where="%d fresh locals" % len(fresh)))
+    calls = [n for n in ast.walk(func) if isinstance(n, ast.Call) and getattr(n.func, "id", None) == "_ensure_subdict"]
+    if not calls:
+        out.append(result(cl["name"] + "/ensure_subdict-parents-are-fresh", "error", "anchor lost: no _ensure_subdict call"))
+    else:
+        badc = ["line %d: %s" % (c.lineno, ast.unparse(c)[:50]) for c in calls
+                if not (c.args and isinstance(c.args[0], ast.Name) and c.args[0].id in fresh)]
+        out.append(result(cl["name"] + "/ensure_subdict-parents-are-fresh", "failed" if badc else "proved", "; ".join(badc[:6]),
+                          where="%d call(s)" % len(calls)))
+    return out
+
+
+for _f in ("_ensure_dict", "_deep_merge", "_ensure_subdict"):
+    R.fclause("C14", "purity/fresh-return:" + _f, "custom", V + _f, fn=returns_fresh)
+for _f in ("_ensure_dict", "_deep_merge"):
+    R.fclause("C14", "purity/helpers-do-not-write-args:" + _f, "custom", V + _f, fn=does_not_write_params)
+R.fclause("C14", "purity/writes-only-into-fresh", "custom", IMPL, fn=writes_only_into_fresh)
